@@ -138,7 +138,7 @@ def run_property(pid, tier="quick", seed=0, only=None, verbose=False, do_bounded
         cans = con.canaries if tier == "thorough" else con.canaries[:1]
         for can in cans:
             label, old, new = can[:3]
-            c = verify.run_canary(con, label, old, new, min(timeout, 10000), can[3] if len(can) > 3 else None)
+            c = verify.run_canary(con, label, old, new, con.timeout_ms or min(timeout, 10000), can[3] if len(can) > 3 else None)
             c["contract"] = con.name
             canaries.append(c)
             if c["status"] == "not-applicable":
